@@ -46,7 +46,7 @@ PROPS = {
                   'C17_dispatch_conserves', 'C17_dispatch_succeeds', 'C17_rate_le_one_init',
                   'C17_rate_le_one_step', 'C17_no_zero_transfer', 'C17_known_F2_witness'],
         kernels=['swapinfo'],
-        scenarios=['basic.ops', 'branches.ops'],
+        scenarios=['basic.ops', 'branches.ops', 'paramgrid.ops'],
         profiles=['rewards'],
         keys=['m bank disp', 'm wasm disp', 'm wasm hub disp', 'dp.', 'bank disp', 'bank keeper'],
         ops=[r'^disp ', r'^inst_disp', r'^hub \S+ updateglobal'],
